@@ -16,7 +16,8 @@ class Contract:
     def __init__(self, qual, kind='function', params=None, returns='none', requires=(), ensures=(), raises=(),
                  loops=None, inline=(), theories=(), refines=None, modifies=(), yields=None, decreases=None,
                  props=(), eq_on_ref=None, setter=False, joins=None, closure_of=None, free=None, trusted=False, note='',
-                 exc_ensures=None, ghost_out=None, fresh_result=False, globals_=None, replay=None, lists=None, yield_acc=None, yield_ensures=None):
+                 exc_ensures=None, ghost_out=None, fresh_result=False, globals_=None, replay=None, lists=None, yield_acc=None, yield_ensures=None,
+                 raises_ensures=None, call_keys=None):
         self.qual = qual
         self.kind = kind              # function | method | property | generator
         self.params = dict(params or {})
@@ -45,6 +46,8 @@ class Contract:
         self.lists = list(lists) if lists is not None else None   # list objects a call may change (frame for all others)
         self.yield_acc = dict(yield_acc or {})      # ghost integer accumulators: name -> expression over the yielded value y
         self.yield_ensures = list(yield_ensures or [])   # obligations at every yield, over y and the accumulators (before update)
+        self.raises_ensures = dict(raises_ensures or {})   # exception class -> clauses over the raised object `exc`
+        self.call_keys = dict(call_keys or {})   # callee qualname -> contract key to use at this function's call sites
         self.replay = replay          # dict(observe={name: spec expr over the entry state}, script=python template)
         self._parsed = {}
 
